@@ -750,7 +750,32 @@ def run(ctx):
             isinstance(c, ast.Compare) and isinstance(c.ops[0], ast.NotIn) for c in ast.walk(n))]
         prob = scan_exhaustion_problem(g.node)
         last_is_raise = bool(gd.body) and isinstance(gd.body[-1], ast.Raise) and isinstance(gd.body[-1].exc, ast.Call) and dotted(gd.body[-1].exc.func) == "Exception"
-        if loops and last_is_raise and prob is None:
+        # the scan may live in a helper that returns None when it is exhausted: `if (x := scan(...)) is None: raise Exception`
+        via_helper = None
+        if not loops:
+            gal_ = P_.value_aliases(gd)
+            for pth in P_.enum_paths(gd.body):
+                if pth.end != "raise" or not any(pth.end_node is b or ast.dump(pth.end_node) == ast.dump(b) for b in [n_ for n_ in ast.walk(gd) if isinstance(n_, ast.Raise)]):
+                    continue
+                for a_ in P_.facts(pth):
+                    if a_[0] == "none" and a_[2] is True and a_[1] in gal_ and isinstance(gal_[a_[1]], ast.Call):
+                        from sa.inline import resolve_callee as _rc
+
+                        rc_ = _rc(prog, g, gal_[a_[1]], {})
+                        if rc_ is not None and hasattr(rc_[0], "node"):
+                            hd = _desugar(rc_[0].node)
+                            hloops = [n_ for n_ in ast.walk(hd) if isinstance(n_, ast.For) and any(
+                                isinstance(c, ast.Compare) and isinstance(c.ops[0], ast.NotIn) for c in ast.walk(n_))]
+                            tail_none = bool(hd.body) and isinstance(hd.body[-1], ast.Return) and (
+                                hd.body[-1].value is None or (isinstance(hd.body[-1].value, ast.Constant) and hd.body[-1].value.value is None))
+                            if hloops and tail_none:
+                                via_helper = (rc_[0], scan_exhaustion_problem(rc_[0].node))
+        if via_helper is not None and via_helper[1] is None:
+            ctx.ok("R16.6", key, sample={"function": g.fq, "unreachable_because": "%s returns None only after trying |population|+1 distinct candidates"
+                                         % via_helper[0].qualname})
+        elif via_helper is not None:
+            ctx.violation("R16.6", key, "an internal error (bare Exception) is reachable: %s" % via_helper[1], file=g.file, line=bare[0].lineno)
+        elif loops and last_is_raise and prob is None:
             ctx.ok("R16.6", key, sample={"function": g.fq, "unreachable_because": "the scan before it tries at least |population|+1 distinct candidates"})
         elif prob is not None:
             ctx.violation("R16.6", key, "an internal error (bare Exception) is reachable: %s" % prob, file=g.file, line=bare[0].lineno)
